@@ -236,6 +236,14 @@ C18_Translate == IsLangOut => \A i \in DOMAIN Ev.tags : Ev.tags[i].kind \in {"T"
 \* (the nodes that load them do not switch language)
 C18_TranslateStatic == IsLangOut /\ Ev.lang = Ev.langbefore => \A i \in DOMAIN Ev.tags : Ev.tags[i].kind = "S" =>
                     Ev.tags[i].variant = IF Ev.lang # "" /\ HasTr("S", Ev.tags[i].sym, Ev.lang) THEN Ev.lang ELSE "default"
+\* the session language is the configured one until an external function selects another (valid) one, and from then on the
+\* selected one: after every request it is the last valid code returned during that request, else what it was before
+\* (across requests, engine objects, saving and loading, and the session starting over at the end of the program)
+LangCode(c) == CASE c = "nor" -> "nor" [] c = "no" -> "nor" [] c = "fra" -> "fra" [] c = "swa" -> "swa" [] c = "en" -> "eng" [] OTHER -> ""
+RECURSIVE AfterCalls(_, _)
+AfterCalls(cur, calls) == IF calls = <<>> THEN cur
+                          ELSE AfterCalls(IF LangCode(Head(calls)) # "" THEN LangCode(Head(calls)) ELSE cur, Tail(calls))
+C18_LangKept == IsLangOut => Ev.lang = AfterCalls(IF Ev.req = 0 THEN Ev.cfglang ELSE Ev.prev, Ev.calls)
 C18_PageHasText == IsLangOut /\ Ev.cont => Ev.tags # <<>>
 
 \* ---- hook soundness
